@@ -56,6 +56,42 @@ Theorem C14_ritz_pairs : forall (C V : Type) (o : kops C V) (A : V -> V) (nonneg
 Proof. exact @lanczos_ritz. Qed.
 Print Assumptions C14_ritz_pairs.
 
+
+(* Krylov span: each returned column Q_a lies in span{v, A v, .., A^a v} and each A^t v (t < k) lies in span{Q_0..Q_t}:
+   the first j columns span the j-th Krylov space, for every j <= k *)
+Theorem C14_krylov_span : forall (C V : Type) (o : kops C V) (A : V -> V) (nonneg : C -> Prop), klaws o A nonneg ->
+  forall (tol : C) (v : V) (n max_iters : nat), o.(vnrm) v <> o.(c0) -> 1 <= n -> 1 <= max_iters ->
+  forall w : V, lanczos_facts o A nonneg tol v n max_iters w -> lres_krylov o A (lanczos1 o A false n v max_iters tol) v.
+Proof. exact @lanczos_krylov. Qed.
+Print Assumptions C14_krylov_span.
+
+(* lanczos_eigs with its oracles (eigh: T Y = Y diag(theta); argsort: a sorting permutation): ascending values, Ritz pairs *)
+Theorem C14_lanczos_eigs : forall (C V : Type) (o : kops C V) (A : V -> V) (nonneg : C -> Prop), klaws o A nonneg ->
+  forall (tol : C) (v : V) (n max_iters : nat), 1 <= n -> 1 <= max_iters ->
+  forall (w : V) (cle : C -> C -> Prop)
+    (eigh : nat -> (nat -> nat -> C) -> (nat -> C) * (nat -> nat -> C)) (argsort : nat -> (nat -> C) -> nat -> nat),
+  lanczos_facts o A nonneg tol v n max_iters w ->
+  let r := lanczos1 o A false n v max_iters tol in
+  let k := length (rQ r) in
+  let T := Tent o r in
+  (forall a j, a < k -> j < k -> csum o k (fun c => o.(cmul) (T a c) (snd (eigh k T) c j)) = o.(cmul) (fst (eigh k T) j) (snd (eigh k T) a j)) ->
+  (forall j, j < k -> argsort k (fst (eigh k T)) j < k) ->
+  (forall i j, i <= j < k -> cle (fst (eigh k T) (argsort k (fst (eigh k T)) i)) (fst (eigh k T) (argsort k (fst (eigh k T)) j))) ->
+  let out := lanczos_eigs o A false eigh argsort n v max_iters tol in
+  (forall i j, i <= j < k -> cle (fst out i) (fst out j)) /\
+  (forall j, j < k -> forall u,
+     o.(vdot) u (A (snd out j)) =
+     o.(cadd) (o.(cmul) (fst out j) (o.(vdot) u (snd out j)))
+              (o.(cmul) (snd (eigh k T) (k - 1) (argsort k (fst (eigh k T)) j)) (o.(vdot) u w))).
+Proof. exact @lanczos_eigs_spec. Qed.
+Print Assumptions C14_lanczos_eigs.
+
+(* the whole statement for the 1-D start-vector path (batches of one); C14_full (all batch sizes) is refuted by
+   C14_batch_shared_stop_refuted *)
+Theorem C14_single_start : C14_statement (fun len => len = 1).
+Proof. exact C14_single_start_partial. Qed.
+Print Assumptions C14_single_start.
+
 (* the hypotheses are satisfiable: Euclidean plane, any symmetric matrix *)
 Example C14_laws_satisfiable : forall a b c : Rdefinitions.R, klaws ropsR2 (sym2 a b c) nonnegR.
 Proof. exact klaws_R2. Qed.
